@@ -394,6 +394,7 @@ func VerifDecodeHeader(r io.Reader) (int, uint64, error) {
 
 var schedFiles = []string{
 	"pkg/ingest/inserter.go", "pkg/sorter/sorter.go", "pkg/diff/diff.go", "pkg/merge/merger.go", "pkg/merge/row_collector.go",
+	"pkg/progress/progress.go",
 }
 
 // schedRewrite routes the concurrency constructs of one file through the verifrt shims:
@@ -478,6 +479,33 @@ func schedRewrite(file, src string) (string, int) {
 		if strings.Contains(out, r[0]) {
 			out = strings.ReplaceAll(out, r[0], r[1])
 			n++
+		}
+	}
+	// any WaitGroup field named wg, whatever the receiver is called
+	reWg := regexp.MustCompile(`\b([A-Za-z_]\w*)\.wg\.(Add|Done|Wait)\(([^)]*)\)`)
+	out = reWg.ReplaceAllStringFunc(out, func(m string) string {
+		g := reWg.FindStringSubmatch(m)
+		n++
+		switch g[2] {
+		case "Add":
+			return "verifrt.WgAdd(&" + g[1] + ".wg, " + g[3] + ")"
+		case "Done":
+			return "verifrt.WgDone(&" + g[1] + ".wg)"
+		}
+		return "verifrt.WgWait(&" + g[1] + ".wg)"
+	})
+	if file == "pkg/progress/progress.go" {
+		// the tracker goroutine's select over {done, ticker} and the ticker itself (an environment thread under the scheduler)
+		sel := "\t\t\tselect {\n\t\t\tcase <-t.done:\n\t\t\t\treturn\n\t\t\tcase <-t.ticker.C:\n"
+		rep := "\t\t\tif verifSel, _, _ := verifrt.ReflectSelect([]reflect.SelectCase{{Dir: reflect.SelectRecv, Chan: reflect.ValueOf(t.done)}, {Dir: reflect.SelectRecv, Chan: reflect.ValueOf(t.ticker.C)}}); verifSel == 0 {\n\t\t\t\treturn\n\t\t\t}\n\t\t\t{\n"
+		if strings.Count(out, sel) == 2 && strings.Count(out, "time.NewTicker(t.d)") == 2 {
+			out = strings.ReplaceAll(out, sel, rep)
+			out = strings.ReplaceAll(out, "time.NewTicker(t.d)", "verifrt.NewTicker(t.d)")
+			out = strings.Replace(out, "import (\n", "import (\n\t\"reflect\"\n", 1)
+			n++
+		} else {
+			// fail-closed: the harness that needs these rewrites asks for the marker below and stops with an infrastructure error
+			return src, 0
 		}
 	}
 	if n > 0 && !strings.Contains(out, "pkg/verifrt\"") {
